@@ -32,7 +32,8 @@ Init == /\ tid \in 1..N /\ l = 1 /\ s = 0
 
 \* obligation of the high-frequency round that followed the batch handled last: with rate 1 every HFT agent
 \* is consulted until maxHighFrequencyOrders of them have produced orders
-HftRoundIncomplete == handled > 0 /\ Rate = 2 /\ HFT # {} /\ hNE < MaxH /\ hcons # HFT
+HftRoundIncomplete == handled > 0 /\ HFT # {} /\ hNE < MaxH /\ hcons # HFT
+                      /\ (Rate = 2 \/ (Rate = 1 /\ hcons # {}))    \* the draw is per BATCH: a round that has begun is completed
 \* the collection phase consults every normal agent unless the cap stopped it
 CollectIncomplete == collecting /\ Place /\ nNE < MaxN /\ cons # Normal
 
@@ -79,8 +80,10 @@ Step ==
             /\ v' = [v EXCEPT !.C09 = F(@, Len(e.fills) > 0 /\ ~Exec, "C09:fill-without-execution")]
             /\ UNCHANGED <<s, cons, nNE, handled, cur, hcons, hNE, collecting>>
        [] e.k = "stepE" /\ e.m = 0 ->
-            /\ v' = [v EXCEPT !.C09 = F(F(@, CollectIncomplete, "C09:not-all-consulted"),
-                                        HftRoundIncomplete, "C09:hft-rate1")]
+            /\ v' = [v EXCEPT !.C09 = F(F(F(@, CollectIncomplete, "C09:not-all-consulted"),
+                                        HftRoundIncomplete, "C09:hft-rate1"),
+                                        \* every batch a normal agent produced reaches the markets before the step ends
+                                        Place /\ handled # nNE, "C09:produced-batch-never-handled")]
             /\ collecting' = FALSE /\ handled' = 0
             /\ UNCHANGED <<s, cons, nNE, cur, hcons, hNE>>
        [] e.k = "abort" ->
